@@ -626,6 +626,60 @@ fn answer_lib(line: &str) -> String {
                 }
             }
         }
+        ["fmt_flags", ct, j, y, m, d] => {
+            // formatting under every kind of format flag must return normally (C05); what the
+            // flags do to the text is not fixed by any property, so only "OK" is reported
+            let c = cal!(ct);
+            let j: i32 = p!(j.parse().ok());
+            let y: i32 = p!(y.parse().ok());
+            let mo = p!(month_of_tok(m));
+            let dd: u32 = p!(d.parse().ok());
+            let date = c.at_jdn(j);
+            macro_rules! all_specs {
+                ($v:expr) => {{
+                    let v = $v;
+                    let mut n = 0usize;
+                    n += format!("{v}").len();
+                    n += format!("{v:#}").len();
+                    n += format!("{v:14}").len();
+                    n += format!("{v:>14}").len();
+                    n += format!("{v:<3}").len();
+                    n += format!("{v:^20}").len();
+                    n += format!("{v:*^16}").len();
+                    n += format!("{v:#12}").len();
+                    n += format!("{v:1}").len();
+                    n += format!("{v:0}").len();
+                    n += format!("{v:.3}").len();
+                    n += format!("{v:.0}").len();
+                    n += format!("{v:#>30.2}").len();
+                    n += format!("{v:300}").len();
+                    n += format!("{v:?}").len();
+                    n += format!("{v:#?}").len();
+                    n
+                }};
+            }
+            let mut n = all_specs!(date);
+            n += all_specs!(date.month());
+            n += all_specs!(date.weekday());
+            n += format!("{c:?}{c:#?}{c:30?}").len();
+            if let Err(e) = c.at_ymd(y, mo, dd) {
+                n += all_specs!(e);
+            }
+            if let Err(e) = c.at_ordinal_date(y, dd) {
+                n += all_specs!(e);
+            }
+            if let Err(e) = c.parse_date(&format!("{y}-{}-x{dd}", mo.number())) {
+                n += all_specs!(e);
+            }
+            if let Err(e) = Calendar::reforming(j) {
+                n += all_specs!(e);
+            }
+            if let Some(s) = c.month_shape(y, mo) {
+                n += format!("{s:?}{:?}{:?}", s.days(), s.dates()).len();
+            }
+            let _ = n;
+            "OK".into()
+        }
         ["shape_eq", c1, y1, m1, c2, y2, m2] => {
             let a = cal!(c1);
             let b = cal!(c2);
